@@ -170,8 +170,23 @@ def native_replay(scratch, src):
     env.pop("RUSTFLAGS", None)
     fails = 0
     for prof in ([], ["--release"]):
-        p = subprocess.run(["cargo", "test", "--offline", "--test", "replay"] + prof, cwd=d, env=env,
-                           stdout=subprocess.PIPE, stderr=subprocess.STDOUT, text=True)
+        import signal
+        pr = subprocess.Popen(["cargo", "test", "--offline", "--test", "replay"] + prof, cwd=d, env=env,
+                              stdout=subprocess.PIPE, stderr=subprocess.STDOUT, text=True, start_new_session=True)
+        try:
+            out, _ = pr.communicate(timeout=2400)
+        except subprocess.TimeoutExpired:
+            log("  replay did not finish within 2400 s (a hang is not counted as a reproduction)")
+            try:
+                os.killpg(pr.pid, signal.SIGKILL)
+            except Exception:
+                pass
+            pr.communicate()
+            return None
+
+        class _P:
+            stdout = out
+        p = _P
         if "test result: FAILED" in p.stdout:
             fails += 1
         elif "test result: ok" not in p.stdout:
@@ -202,7 +217,11 @@ def python_replay(scratch, src):
         shutil.rmtree(tdir, ignore_errors=True)
     with open(os.path.join(d, "replay.py"), "w") as f:
         f.write(src)
-    p = subprocess.run(["python3", "replay.py"], cwd=d, env=env, stdout=subprocess.PIPE, stderr=subprocess.STDOUT, text=True)
+    try:
+        p = subprocess.run(["python3", "replay.py"], cwd=d, env=env, stdout=subprocess.PIPE, stderr=subprocess.STDOUT, text=True, timeout=900)
+    except subprocess.TimeoutExpired:
+        log("  python replay did not finish within 900 s (a hang is not counted as a reproduction)")
+        return None
     if p.returncode == 0 and "REPLAY-OK" in p.stdout:
         return 0
     if "AssertionError" in p.stdout:
